@@ -474,6 +474,8 @@ def oracle(c, out):
         return (False, "accepted session never reported as ended: " + sh)
     if news and news[0].endswith(":r") and dels:
         return (False, "refused session reported as ended: " + sh)
+    if news and "conn" in kinds[kinds.index(news[0]):]:
+        return (False, "connect notification for a session that already has a role: " + sh)
     if any(k.startswith("av") for k in kinds) and "newpub:a" not in kinds:
         return (False, "media delivered without a publish: " + sh)
     data = None
